@@ -30,6 +30,7 @@ LEVEL_TEXT = (
 )
 LEVEL_NOTE = "Trusted: scalar interval rule, closed-form survival functions (math.erfc etc.). Finite driver/parameter alphabets, grids up to 5 items."
 TOL = 1e-10
+RECOMPUTE_DRIVERS = c03.RECOMPUTE_DRIVERS
 
 
 def bounds(tier):
@@ -67,7 +68,7 @@ def run_case(kind, grid, li, quad, extra, pair, drv):
             d = dsm_impl.run_stock("inflow", grid, lt, quad, extra, shapes, dsm_impl.driver_series("pos", n, extra))["stock"]
         else:
             d = dsm_impl.driver_series(drv, n, extra)
-        return dsm_impl.run_stock(kind, grid, lt, quad, extra, shapes, d)
+        return dsm_impl.run_stock(kind, grid, lt, quad, extra, shapes, d, recompute=(drv in RECOMPUTE_DRIVERS))
 
     st, res = attempt(compute)
     if st == "raised":
